@@ -71,7 +71,7 @@ struct Case
 };
 
 constexpr int     kMaxCap    = 256;
-constexpr int     kMaxElems  = 320;
+constexpr int     kMaxElems  = 2400;
 constexpr int64_t kMaxTtlMs  = 1'000'000'000'000ll; // 1e12 ms (31 years): now + ttl still fits the clock's 64-bit nanoseconds
 constexpr int64_t kMaxAdvNs  = 200'000'000'000ll;
 
@@ -229,7 +229,7 @@ inline bool op_from_line(const std::string& line, Op& out)
         case O_REP: ls >> o.j >> o.ttl_ms; break;
         case O_INSR:
             ls >> o.allow >> o.flavour >> n;
-            for (size_t i = 0; i < n && i < 400 && ls; ++i)
+            for (size_t i = 0; i < n && i < 2500 && ls; ++i)
             {
                 Elem e;
                 ls >> e.k >> e.ttl_ms;
@@ -240,7 +240,7 @@ inline bool op_from_line(const std::string& line, Op& out)
         case O_ERA: ls >> o.k; break;
         case O_ERAR:
             ls >> o.flavour >> n;
-            for (size_t i = 0; i < n && i < 400 && ls; ++i)
+            for (size_t i = 0; i < n && i < 2500 && ls; ++i)
             {
                 Elem e;
                 ls >> e.k;
@@ -257,7 +257,7 @@ inline bool op_from_line(const std::string& line, Op& out)
         case O_FINDRF:
             ls >> p >> o.flavour >> n;
             o.peek = p != 0;
-            for (size_t i = 0; i < n && i < 400 && ls; ++i)
+            for (size_t i = 0; i < n && i < 2500 && ls; ++i)
             {
                 Elem e;
                 ls >> e.k;
